@@ -294,7 +294,8 @@ func c16RunHistory(provider string, names []string) string {
 }
 
 func c16RunHistoryF(provider string, names []string) (string, string) {
-	restful.SetCompressorProvider(newProvider(provider))
+	led := newLedger(newProvider(provider))
+	restful.SetCompressorProvider(led)
 	w := c16Build()
 	written, _ := w.generate(c16HistVal, "json", false)
 	byName := map[string]c16Body{}
@@ -306,6 +307,9 @@ func c16RunHistoryF(provider string, names []string) (string, string) {
 		got = c16PostResult(w, byName[n])
 	}
 	last := byName[names[len(names)-1]]
+	if ms := led.report(true); len(ms) > 0 {
+		return fmt.Sprintf("after %v: the (de)compressor ledger of the provider is not clean: %s", names, ms[0]), ""
+	}
 	restful.SetCompressorProvider(newProvider(provider))
 	w2 := c16Build()
 	want := c16PostResult(w2, last)
